@@ -169,7 +169,7 @@ def execute(plan):
                     got = plug.recover(sec.get("Data"), parse)
                     vio.append(V("payload-not-recoverable", ctx + ": hex dump gives back %s bytes; section: %s" % (
                         [len(g) for g in got], _short(sec))))
-                needs_note = behaviour in ("raise", "none", "keyerror", "importerror", "modulenotfound") or \
+                needs_note = behaviour in ("raise", "none", "keyerror", "importerror", "modulenotfound", "raise_noargs") or \
                     state in ("import-failed:SyntaxError", "import-failed:ValueError")
                 if needs_note and not (isinstance(sec.get("Error"), str) and sec["Error"]):
                     vio.append(V("failed-parser-no-error-note", ctx + ": parser %s but no error note: %s" % (behaviour or state, _short(sec))))
